@@ -58,6 +58,7 @@ fn main() {
         "layers-gen" => p3r_verif_harness::layers::cmd_gen(&args[2..]),
         "stark" => p3r_verif_harness::stark::cmd(&args[2..]),
         "npo-cells" => p3r_verif_harness::npocells::cmd(&args[2..]),
+        "npo-honest" => p3r_verif_harness::merklepath::cmd(&args[2..]),
         "digest-npo" => p3r_verif_harness::npodigest::cmd(&args[2..]),
         "stark-expand" => p3r_verif_harness::stark::cmd_expand(&args[2..]),
         "stark-gen" => p3r_verif_harness::stark::cmd_gen(&args[2..]),
